@@ -30,8 +30,9 @@ type ProgCase struct {
 	WireVals []*wire.Value
 	// unmapped keys of the first match field of the root
 	UnmappedHex []string
-	RegSeqs     []regSeq // C06: checksum-registry operation sequences (regseq.go)
-	Off         []offRun // encodes into / decodes from buffers that are not in their initial state (offset.go)
+	RegSeqs     []regSeq   // C06: checksum-registry operation sequences (regseq.go)
+	Reuse       []reuseRun // C05: decodes into an object that already holds a payload (reuse.go)
+	Off         []offRun   // encodes into / decodes from buffers that are not in their initial state (offset.go)
 	Cells       map[string]*CodecCell
 }
 
@@ -92,7 +93,9 @@ func buildCases(ctx *core.Ctx, progs []*dsl.Program, maxDev int) []*ProgCase {
 		default:
 			pc.Accepted = true
 		}
-		for _, msg := range r.Messages(maxDev) {
+		msgs := r.Messages(maxDev)
+		msgs = append(msgs, r.BoundaryLengthMessages(msgs)...)
+		for _, msg := range msgs {
 			enc := r.Encode(msg)
 			if enc.Err != "" {
 				core.HarnessError("reference encoder fails on %s %s: %s", p.Name, msg.ID, enc.Err)
@@ -124,6 +127,9 @@ func buildCases(ctx *core.Ctx, progs []*dsl.Program, maxDev int) []*ProgCase {
 					pc.UnmappedHex = append(pc.UnmappedHex, hex.EncodeToString(enc.Bytes))
 				}
 			}
+		}
+		if len(pc.Msgs) > 0 {
+			buildReuseRuns(pc)
 		}
 	})
 	return cases
@@ -168,6 +174,7 @@ func driverInput(pc *ProgCase) []string {
 		in = append(in, fmt.Sprintf("DEC u%d %s %s", k, r.Root.Name, h))
 	}
 	in = append(in, offInput(pc)...)
+	in = append(in, reuseInput(pc)...)
 	in = append(in, regInput(pc)...)
 	return in
 }
@@ -519,6 +526,9 @@ func codecPrograms(ctx *core.Ctx) []*dsl.Program {
 			add(p, o1)
 		}
 		add(dsl.Universal(), o2)
+		for _, p := range targetedFamilies() {
+			add(p, lePoint)
+		}
 		return out
 	}
 	// quick: singles under one deviating value per relevant option; the universal packet under every value
@@ -527,8 +537,17 @@ func codecPrograms(ctx *core.Ctx) []*dsl.Program {
 	for _, n := range dsl.OptionNames {
 		o1first = append(o1first, []dsl.OptDeviation{{Name: n, Value: dsl.OptionValues[n][1]}})
 	}
+	// byte order together with one other deviating option: whatever a generator builds from two option values
+	// (a little-endian accessor for a one-byte prefix ...) is met by no single deviation
+	var lePairs [][]dsl.OptDeviation
+	for _, n := range dsl.OptionNames {
+		if n != "LittleEndian" {
+			lePairs = append(lePairs, []dsl.OptDeviation{{Name: "LittleEndian", Value: "true"}, {Name: n, Value: dsl.OptionValues[n][1]}})
+		}
+	}
 	for _, p := range dsl.P1() {
 		add(p, relevantPoints(p, o1first))
+		add(p, relevantPoints(p, lePairs))
 	}
 	for _, p := range dsl.P6() {
 		add(p, o1first)
@@ -537,7 +556,17 @@ func codecPrograms(ctx *core.Ctx) []*dsl.Program {
 	for _, p := range append(append(dsl.P2(), dsl.P3()...), dsl.P5()...) {
 		add(p, o0)
 	}
+	for _, p := range targetedFamilies() {
+		add(p, o0)
+	}
 	return out
+}
+
+// targetedFamilies: the length-of (L/), match (M/) and checksum (K/) shapes written for C04-C06 are ordinary
+// well-formed programs: C01-C03 and C07 see them too (a key at the maximum of its type, a checksum inside an
+// inline object ... are wire layout like anything else).
+func targetedFamilies() []*dsl.Program {
+	return append(append(lengthPrograms(), matchPrograms()...), checksumPrograms()...)
 }
 
 // relevantPoints prunes option points for a single-kind program to those its wire form can depend on
